@@ -144,7 +144,76 @@ func digestValidatedAt(dig ssa.Value, at ssa.Instruction) (bool, string) {
 		}
 		fn, cur = par, site
 	}
+	// a digest parameter of an unexported helper: validated at every call site instead
+	if par := paramOfValue(dig); par != nil && digValDepth < 3 {
+		h := par.Parent()
+		if h != nil && h.Object() != nil && !h.Object().Exported() && digValProg != nil {
+			idx := -1
+			for i, q := range h.Params {
+				if q == par {
+					idx = i
+				}
+			}
+			sites := digValProg.Callers(h)
+			if idx >= 0 && len(sites) > 0 {
+				all := true
+				for _, st := range sites {
+					c, ok := st.Site.(ssa.CallInstruction)
+					if !ok || core.CalleeFn(c) != h {
+						all = false
+						break
+					}
+					digValDepth++
+					okc, _ := digestValidatedAt(core.CallArg(c, idx), st.Site)
+					digValDepth--
+					if !okc {
+						all = false
+						break
+					}
+				}
+				if all {
+					return true, "validated at every call site of " + h.Name()
+				}
+			}
+		}
+	}
 	return false, "no Validate() on " + strings.TrimPrefix(ap, "var:") + " dominates the use on every path"
+}
+
+// digValProg gives digestValidatedAt access to the call sites of helpers (set by runC20).
+var (
+	digValProg  *core.Prog
+	digValDepth int
+)
+
+// paramOfValue: v is a parameter, or the load of the cell a parameter was spilled into.
+func paramOfValue(v ssa.Value) *ssa.Parameter {
+	for i := 0; i < 4 && v != nil; i++ {
+		switch x := v.(type) {
+		case *ssa.Parameter:
+			return x
+		case *ssa.Convert:
+			v = x.X
+		case *ssa.ChangeType:
+			v = x.X
+		case *ssa.UnOp:
+			if x.Op != token.MUL {
+				return nil
+			}
+			al, ok := x.X.(*ssa.Alloc)
+			if !ok {
+				return nil
+			}
+			sts := core.StoresToCell(al)
+			if len(sts) != 1 {
+				return nil
+			}
+			v = sts[0].Val
+		default:
+			return nil
+		}
+	}
+	return nil
 }
 
 func validatedIn(fn *ssa.Function, ap string, at ssa.Instruction) bool {
@@ -524,6 +593,7 @@ func fsSinks(p *core.Prog, fns []*ssa.Function) []sinkSite {
 }
 
 func runC20(p *core.Prog, r *core.Report) {
+	digValProg = p
 	c20Strict(p, r, "C20.R1", ocidirRel, 25, "every file-system path of scheme/ocidir = layout directory ⊕ constants ⊕ listing/temp names ⊕ parts of a digest validated on every path to the call")
 	c20Strict(p, r, "C20.R2", "pkg/archive", 3, "every file-system path of pkg/archive = caller's directory ⊕ rooted-clean entry name; links are never materialised")
 	c20Links(p, r)
